@@ -637,6 +637,9 @@ func propSpecs() map[string]*PropSpec {
 			fm(c20, "H_C20_nest", o, i, fmt.Sprintf("nesting matrix: container %d inside container %d (0 quote, 1 bullet, 2 ordered) x 3 contents with blank lines", i, o), "quick")
 		}
 	}
+	for o, nm := range []string{"a bullet list", "an ordered list", "a bullet list inside a block quote", "an ordered list inside a block quote"} {
+		fm(c20, "H_C20_tight", int64(o), 0, "tight two-item list ("+nm+") whose first item holds a paragraph directly followed by one of eight blocks (nested lists, quote, fenced code, code + paragraph, heading, thematic break)", "quick")
+	}
 	for i := int64(0); i < 6; i++ {
 		fm(c20, "H_C20_fault", i, 24, fmt.Sprintf("fixed document %d, writer failing at call k in 1..24, both writer kinds", i), "quick")
 	}
